@@ -236,7 +236,7 @@ func applyIfExistsConfig(t rel.Tuple, dir string, fs afero.Fs, dryRun bool) (err
 			return err
 		}
 		if dryRun {
-			return nil
+			return applyFilesFields(t, dir, afero.NewMemMapFs(), true)
 		}
 		if err := fs.RemoveAll(dir); err != nil {
 			return err
